@@ -155,6 +155,7 @@ type Handle struct {
 
 	mu      sync.Mutex
 	crashed bool
+	outage  map[string]int // op kind -> remaining operations that fail ("outage:<actor>:<kind>")
 }
 
 func (b *Bucket) Handle(actor string) *Handle { return &Handle{B: b, Actor: actor} }
@@ -237,6 +238,28 @@ func (h *Handle) begin(ctx context.Context, kind, name string) *opCtx {
 			h.B.record(oc.op)
 			return oc
 		}
+	}
+	// an outage: this and the next few operations of the kind fail (a retry loop does not help)
+	h.mu.Lock()
+	left := h.outage[kind]
+	if left > 0 {
+		h.outage[kind] = left - 1
+	}
+	h.mu.Unlock()
+	if left == 0 && s.Fault("outage:"+h.Actor+":"+kind, oc.id) {
+		h.mu.Lock()
+		if h.outage == nil {
+			h.outage = map[string]int{}
+		}
+		h.outage[kind] = 1 + s.Pick("outage", oc.id, 6)
+		h.mu.Unlock()
+		left = 1
+	}
+	if left > 0 {
+		oc.fail = fmt.Errorf("%w (outage, %s %s)", ErrInjected, kind, cn)
+		oc.op.Err = "injected-outage"
+		h.B.record(oc.op)
+		return oc
 	}
 	if s.Fault("err:"+h.Actor+":"+kind, oc.id) {
 		oc.fail = fmt.Errorf("%w (%s %s)", ErrInjected, kind, cn)
